@@ -200,9 +200,13 @@ def canon(case, line):
         ret = kv.get("ret", "?")
         if ret.startswith("-"):
             ret = "NEG"
-        return "hdr=%s lines=%s ret=%s A=%s B=%s fresh=%s" % (
+        # body = the text of the saved body line by line (hex, sorted): save_to_file's bytes against the
+        # printer's model (C10's print_message with the default options, Save/LinesModel.v); cls is the
+        # model's count of lines inside good_line_b and is not compared
+        return "hdr=%s lines=%s ret=%s A=%s B=%s fresh=%s body=%s" % (
             kv.get("hdr"), "|".join(sorted(kv.get("lines", "-").split("|"))), ret,
-            sort_dump(kv.get("A", "-")), sort_dump(kv.get("B", "-")), "|".join(sorted(kv.get("fresh", "-").split("|"))))
+            sort_dump(kv.get("A", "-")), sort_dump(kv.get("B", "-")), "|".join(sorted(kv.get("fresh", "-").split("|"))),
+            kv.get("body", "-"))
     if f[0] == "rej":
         return "ret=%s B=%s" % (kv.get("ret"), sort_dump(kv.get("B", "-")))
     return line
